@@ -72,7 +72,7 @@ Qed.
 
 Lemma plain_no_hash s : plain_ident s = true -> has_hash s = false.
 Proof.
-  unfold plain_ident. intros H. apply andb_prop in H. destruct H as [H _].
+  unfold plain_ident. intros H. apply andb_prop in H. destruct H as [H _]. apply andb_prop in H. destruct H as [H _].
   apply andb_prop in H. destruct H as [H _]. now apply all_chars_no_hash.
 Qed.
 
